@@ -37,7 +37,8 @@ RULE = (
     "case = url (one generated valid URL assigned to a request in a random initial state) or edits (1..6 host/port/url "
     "edits); hosts: DNS names (1-5 labels, case, '_' '-', trailing dot, long), IDN (9 scripts; U-label, upper-case "
     "U-label, A-label, upper-case A-label), IPv4, IPv6 (::1, ::, full, upper-case hex, v4-mapped); ports: absent, "
-    "empty, default, zero-padded, 1..65535; targets: RFC 3986 pchar / %xx / ;params / empty params / query / fragment / "
+    "empty, default, zero-padded, 1..65535; ~1/3 of the URLs name the request's current (host, port) again, mostly under the "
+    "other scheme with the port explicit or elided (Host/authority text must follow the scheme); targets: RFC 3986 pchar / %xx / ;params / empty params / query / fragment / "
     "'//' / dot segments / empty path with query. distinct = (kind, host class, IDN form, port form, target feature "
     "set, protocol version, Host header present, authority present, str|bytes) or (edit-kind sequence, host classes, "
     "version, Host, authority); non-trivial = url: host not a plain DNS name or explicit port or target with features; "
@@ -206,11 +207,48 @@ def gen_target(r):
     return t, tuple(sorted(feats))
 
 
-def gen_url(r):
-    scheme = r.choice(["http", "https"])
+def same_destination(r, req):
+    """Host / port texts of a URL that names the request's CURRENT destination (same host, same port), or None.
+    The port is written explicitly unless it is the default of the URL's scheme; the scheme may flip."""
+    host, port = req.host, req.port
+    if not isinstance(host, str) or not host or not isinstance(port, int) or not 1 <= port <= 65535:
+        return None
+    try:
+        kind, _ = ref.norm_host(host)
+    except ref.RefURLError:
+        return None
+    if kind == "ip6":
+        htext, hcls = f"[{host}]", "ipv6"
+    elif kind == "ip4":
+        htext, hcls = host, "ipv4"
+    elif host.isascii():
+        htext, hcls = rand_case(r, host), "dns"
+    else:
+        try:
+            htext, hcls = host.encode("idna").decode("ascii"), "idn"  # A-label form: a URL is ASCII
+        except UnicodeError:
+            return None
+    flip = r.random() < 0.65
+    scheme = {"http": "https", "https": "http"}.get(req.scheme, "http") if flip else (req.scheme if req.scheme in ("http", "https") else "http")
+    if ref.DEFAULT_PORT[scheme] == port and r.random() < 0.4:
+        ptext, pform = r.choice(["", ":"]), "same-elided"
+    else:
+        ptext, pform = f":{port}", "same-explicit"
+    return scheme, htext, host, hcls, ptext, port, pform + ("-flip" if flip else "")
+
+
+def gen_url(r, same_as=None):
+    """A valid URL; with `same_as` (a request) it may name that request's current host and port, possibly under the
+    other scheme -- the Host header / authority text then has to change although the destination does not."""
+    same = same_destination(r, same_as) if same_as is not None and r.random() < 0.35 else None
+    if same:
+        scheme, htext, hval, hcls, ptext, port, pform = same
+        form = "alabel" if hcls == "idn" else "-"
+    else:
+        scheme = r.choice(["http", "https"])
+        htext, hval, hcls, form = gen_host(r)
+        ptext, port, pform = gen_port(r, scheme)
     spelled = r.choice([scheme, scheme, scheme, scheme.upper(), scheme.title()])
-    htext, hval, hcls, form = gen_host(r)
-    ptext, port, pform = gen_port(r, scheme)
     target, feats = gen_target(r)
     return {
         "url": f"{spelled}://{htext}{ptext}{target}", "scheme": scheme, "host_text": htext, "host": hval, "host_class": hcls, "idn_form": form,
@@ -379,7 +417,7 @@ def run(ctx):
         req, version, had_host, had_auth = gen_request(r)
         base = {"version": version, "had_host_header": had_host, "had_authority": had_auth, "initial": snapshot(req)}
         if r.random() < 0.65:
-            g = gen_url(r)
+            g = gen_url(r, same_as=req)
             as_bytes = g["url"].isascii() and r.random() < 0.25
             check_url_assign(ctx, req, g, had_host, had_auth, {"kind": "url", **base}, as_bytes)
             nontrivial = g["host_class"] != "dns" or g["port_form"] != "absent" or bool(g["feats"])
@@ -395,7 +433,7 @@ def run(ctx):
             kinds.append(k)
             wit = {"kind": "edits", **base, "step": step, "edits": log[-6:]}
             if k == "url":
-                g = gen_url(r)
+                g = gen_url(r, same_as=req)
                 classes.add(g["host_class"])
                 log.append(("url", g["url"]))
                 wit["edits"] = log[-6:]
